@@ -331,11 +331,12 @@ Definition step_assert (a : assertion) (st : state) : list outcome :=
 
 (* ------------------------------------------------------------------ the other options *)
 
-(* after storing a reference: if that closed a cycle the manual has nothing to say *)
+(* after storing a reference: an option that would close a cycle (a value containing itself can be
+   neither printed nor compared) fails and changes nothing *)
 Definition guard_cyc (p : addr) (st' st : state) : list outcome :=
   match value (hp st') p with
   | Some _ => [Ok st']
-  | None => [fail st; Ok st']
+  | None => [fail st]
   end.
 
 Definition add_missing (m o : list (bytes * addr)) : list (bytes * addr) :=
@@ -453,9 +454,8 @@ Definition step_plain (st : state) (o : opt) : list outcome :=
           match value (hp st') p with
           | Some _ => [Ok st']
           | None =>
-              (* a member of TOP refers back to PREV: fail / build the cycle / leave out the
-                 members that are PREV itself (silent) *)
-              [fail st; Ok st'; Ok (set_node p (NObj (add_missing m (not_self p o))) st)]
+              (* a member of TOP that would be added reaches PREV: the option fails *)
+              [fail st]
           end
       | _, _, _, _ => [fail st]
       end
